@@ -97,8 +97,12 @@ class Ctx:
             print("  rule=%s key=%s" % (v["rule"], v["key"]))
             print("  at %s" % (v["where"] or "?"))
             print("  %s" % v["detail"])
-        n_ob = len(self.obs)
-        n_ok = sum(1 for o in self.obs if o["ok"])
+        # obligations recorded as known findings are reported separately (they are
+        # neither discharged nor new violations)
+        kf = {v["key"] for v in seen_known}
+        counted = [o for o in self.obs if o["key"] not in kf]
+        n_ob = len(counted)
+        n_ok = sum(1 for o in counted if o["ok"])
         distinct = len({o["key"] for o in self.obs if o["nontrivial"]})
         cov = {
             "evaluations": n_ob,
